@@ -3,6 +3,7 @@ import Lemmas.Py.Ast
 import Lemmas.Py.Roundtrip
 import Lemmas.Render.Wf
 import Lemmas.Render.Eval
+import Lemmas.Render.EvalTable
 /-!
 # C08 — rendered migration code does exactly what the operation objects do
 
@@ -16,10 +17,12 @@ comments, all operations of `Model.Render.Op`, batch and non-batch, with and wit
   (`canon`), at full strength (the table-comment renderers use `%r` since the F8 fix).
 
 * `C08.roundtrip`: evaluating the rendered call gives back the operation (`evalCall ∘ renderOp = normalize`)
-  for every directive except `create_table`.
+  for every directive except `create_table`;
+* `C08.roundtrip_create_table`: the same for `create_table` (columns, inline constraints, table keywords) and hence,
+  through the extension `evalCallT`, for every directive.
 
 Not proved here: that SQLAlchemy's `repr(type)` / DDL compilation agree (outside the model; observed by
-the exec-vs-invoke oracle on every run); `evalCall` for `create_table`; that `evalCall` commutes with `canon`
+the exec-vs-invoke oracle on every run); that `evalCall` commutes with `canon`
 for opaque fragments (the driver evaluates `evalDenotes` = parse ∘ evalCall on the implementation's text).
 -/
 namespace C08
@@ -53,6 +56,25 @@ observe is `existing_server_default` next to a new `server_default` on MSSQL: fi
 theorem roundtrip (ec : ECtx) (o : Op) (h : evalOk o = true) :
     evalCall ec (renderOp ec.c o) = some (normalize ec o) := evalCall_renderOp ec o h
 
+/-- **C08.roundtrip for `create_table` (and, through `evalCallT`, for every directive)**: for every evaluation
+context, every operation and every choice of names, evaluating the rendered call yields the operation up to
+`normalizeT`.  `evalCallT` extends `evalCall` with `create_table`: the positional `sa.Column(...)` items (name, opaque
+type, positional Computed / Identity, `server_default` / `autoincrement` / `nullable` / `system` / `comment`, other
+keywords), the positional `sa.PrimaryKeyConstraint` / `sa.ForeignKeyConstraint` / `sa.UniqueConstraint` /
+`sa.CheckConstraint` items with their keyword arguments (`name` incl. `op.f()`, `deferrable`, `initially`, FK options),
+and the table-level keywords (`schema`, `comment`, `if_not_exists`, dialect kwargs).
+Hypotheses (`evalOkT`): extra keyword arguments of a column, of an inline unique / foreign key constraint and of the table
+do not shadow the names the constructor binds itself.  `normalizeT` on `create_table`: columns as `normCol`, falsy
+schema / comment / constraint name are `None`, a primary key without columns is not rendered, and the inline
+constraints come back in the order of their rendered text (`sorted(...)` in `_add_table`): the same set of constraints,
+another order of the constraint clauses. -/
+theorem roundtrip_create_table (ec : ECtx) (o : Op) (h : evalOkT o = true) :
+    evalCallT ec (renderOp ec.c o) = some (normalizeT ec o) := evalCallT_renderOp ec o h
+
+/-- `evalCallT` agrees with `evalCall` wherever the latter is defined (the existing theorem is not weakened) -/
+theorem evalCallT_extends (ec : ECtx) (e : PyAst) (x : Op) (h : evalCall ec e = some x) : evalCallT ec e = some x :=
+  evalCallT_of_evalCall ec e x h
+
 /-- outside batch mode `normalize` only replaces falsy strings by `None` and drops the two shadowed
 `existing_*` attributes: e.g. it is the identity on `drop_column` with a non-empty schema -/
 example (ec : ECtx) (hb : ec.c.batch = false) (t col : Str) (c0 : Char) (s : Str) :
@@ -62,6 +84,14 @@ example (ec : ECtx) (hb : ec.c.batch = false) (t col : Str) (c0 : Char) (s : Str
 /-! ### non-vacuity -/
 
 def ctx0 : Ctx := { batch := false, opPrefix := S "op.", saPrefix := S "sa.", isP := fun _ => true }
+
+/-- `evalOkT` is satisfiable by a table with awkward names, an `op.f()` primary key name, a foreign key with options
+and a check constraint; and the evaluator really reads the columns back -/
+example : evalOkT (.createTable (S "it's") (some (S "s\\x"))
+      [{ name := S "na\"me", type := .call (S "sa.Integer") Layout.inline [], sdefault := none, sdPositional := false,
+         autoinc := none, nullable := some false, system := false, comment := some (S "c'"), kwargs := [] }]
+      [.pk (.conv (S "pk_it's")) [S "na\"me"], .fk .none [S "na\"me"] [S "o.id"] [(S "ondelete", .str (S "CASCADE"))],
+       .ck (.plain (S "ck")) (S "x > 0"), .pk .none []] none [] (some true)) = true := by decide +kernel
 
 /-- the hypotheses are satisfiable by an operation with awkward names, `op.f()` and an opaque type -/
 example : ctxOk ctx0 = true ∧ evalOk (.createIndex (.conv (S "ix_it's")) (S "it's \"t\"\\") (some (S "s'x")) [.col (S "na\"me"),
